@@ -145,10 +145,16 @@ def t_chart_init(host):
     def run(it):
         c = it.c
         self = c.fresh_ref('self', host)
+        n0 = len(c.live_refs)
         out = run_body(it, method(it, self, '__init__'), [])
-        c.prove('%s.__init__:post/returns-normally' % host, out.raised is None)
+        c.prove('%s.__init__:post/returns-normally' % host, out.raised is None, tags=('C14', 'C15', 'C16'))
         if out.raised is not None:
             return
+        fresh = c.live_refs[n0:]
+        for f in ('queue', 'defer_queue'):
+            v = z3.simplify(c.hget(self, f))
+            c.prove('%s.__init__:post/%s-belongs-to-this-chart-alone' % (host, f),
+                    z3.BoolVal(any(v.eq(fr) for fr in fresh)), tags=('C14', 'C15', 'C16'))
         qsz = class_const(it, host, 'QUEUE_SIZE')
         dq = c.read(self, 'defer_queue')
         c.prove('%s.__init__:post/defer-queue-bounded' % host,
